@@ -153,6 +153,7 @@ def listing(tree, srel):
 
 
 def execute(case, ctx):
+    ctx.persistent = True  # plugin sessions of this history share one directory incl. __pycache__ (logical clock for mtimes, see sim.sync_tree)
     import random
 
     prog = copy.deepcopy(case["program"])
